@@ -44,6 +44,35 @@ class ModelView:
             return v
         return z3.is_true(z3.simplify(self.ev(tobool(v))))
 
+    def array(self, arr):
+        """(default, {index: value}) of an Int/BV-indexed array in the model, or None."""
+        def num(t):
+            t = z3.simplify(t)
+            if z3.is_bv_value(t):
+                return t.as_long() if t.size() == 8 else t.as_signed_long()
+            if z3.is_int_value(t):
+                return t.as_long()
+            raise ValueError
+        try:
+            t = self.ev(arr)
+            d = {}
+            while True:
+                if z3.is_store(t):
+                    i, x = num(t.arg(1)), num(t.arg(2))
+                    d.setdefault(i, x)
+                    t = t.arg(0)
+                elif z3.is_K(t):
+                    return num(t.arg(0)), d
+                elif z3.is_as_array(t):
+                    fi = self.m[z3.get_as_array_func(t)]
+                    for e in fi.as_list()[:-1]:
+                        d.setdefault(num(e[0]), num(e[1]))
+                    return num(fi.else_value()), d
+                else:
+                    return None
+        except Exception:
+            return None
+
     def value(self, v):
         """Concrete engine value (python ints / concrete SSeq / tuples / None) of a symbolic value."""
         if v is None or isinstance(v, (str, bytes)):
@@ -64,6 +93,11 @@ class ModelView:
             n = self.int(v.n)
             if n > SEQ_CAP:
                 raise SymErr('counter-model sequence longer than replay cap (%d)' % n)
+            if v.arr is not None and n > 32:
+                tab = self.array(v.arr)
+                if tab is not None:
+                    dflt, d = tab
+                    return SSeq.of([d.get(i, dflt) for i in range(n)], v.kind)
             items = [self.value(v.get(i)) for i in range(max(0, n))]
             return SSeq.of(items, v.kind)
         if isinstance(v, (Ref, dict)):
@@ -202,6 +236,7 @@ def replay_model(contract, rep, model):
 def judge_concrete(contract, rep, pre, ca):
     E.reset(contract.mode)
     E.axioms = list(rep.axioms)
+    E.concrete = True
     order = [p for p in param_order(rep.fn) if p in ca]
     args_tree = {k: tree(v, pre) for k, v in ca.items()}
     out = run_real(contract.target, args_tree, order, 'gen' if getattr(contract, 'generator', False) else 'call')
